@@ -51,6 +51,19 @@ var optTable = []optSpec{
 	{name: mangos.OptionNoDelay, good: []interface{}{true}, wrongType: []interface{}{1, "x"}},
 	{name: mangos.OptionKeepAlive, good: []interface{}{true}, wrongType: []interface{}{1, "x"}},
 	{name: mangos.OptionKeepAliveTime, good: []interface{}{time.Second}, wrongType: []interface{}{1, "x"}},
+	// transport-specific options documented in transport/ipc and transport/ws
+	{name: "UNIX-IPC-CHMOD", good: []interface{}{uint32(0600), os.FileMode(0640), uint32(0)}, wrongType: []interface{}{0600, "0600", nil, true}, writeOnly: true},
+	{name: "UNIX-IPC-OWNER", good: []interface{}{1000, 0}, wrongType: []interface{}{"root", uint32(5), nil}, writeOnly: true},
+	{name: "UNIX-IPC-GROUP", good: []interface{}{1000, 0}, wrongType: []interface{}{"wheel", uint32(5), nil}, writeOnly: true},
+	{name: "WEBSOCKET-CHECKORIGIN", good: []interface{}{true, false}, wrongType: []interface{}{1, "x", nil}, roundTrip: true},
+	{name: "WEBSOCKET-MUX", readOnly: true},
+	{name: mangos.OptionLinger, good: []interface{}{time.Second}, wrongType: []interface{}{1, "x"}},
+	{name: mangos.OptionTLSConnState, readOnly: true},
+	{name: mangos.OptionHTTPRequest, readOnly: true},
+	{name: mangos.OptionPeerPID, readOnly: true},
+	{name: mangos.OptionPeerUID, readOnly: true},
+	{name: mangos.OptionPeerGID, readOnly: true},
+	{name: mangos.OptionPeerZone, readOnly: true},
 	{name: mangos.OptionRaw, readOnly: true},
 	{name: mangos.OptionLocalAddr, readOnly: true},
 	{name: mangos.OptionRemoteAddr, readOnly: true},
